@@ -51,7 +51,8 @@ func parkedCollect(t *testing.T, n *mininode.Node, during func()) (parked bool) 
 	done := make(chan struct{})
 	go func() {
 		defer close(done)
-		_, _, _ = n.Store.VerifCollectGarbage()
+		c, _, e := n.Store.VerifCollectGarbage()
+		fsim.LastParkedCollected, fsim.LastParkedErr = c, e
 	}()
 	select {
 	case <-reached:
@@ -147,6 +148,7 @@ func histories(t *testing.T, shard int) {
 		// delta = persisted counter minus recomputed total; the invariant is delta == 0.
 		// A violation is keyed by the kind of operation after which delta changed.
 		lastDelta := int64(0)
+		ghostReported := map[string]bool{}
 		check := func(after string) {
 			s, err := fsim.Dump(w.N)
 			if err != nil {
@@ -155,6 +157,15 @@ func histories(t *testing.T, shard int) {
 			run.Stat("quiescent_points_checked", 1)
 			delta := int64(s.GCSize) - int64(s.SumGC)
 			hist[len(hist)-1].Note += fmt.Sprintf(" {%s}", w.Short(s))
+			// a cache entry stands for a file the node holds: its root chunk is stored (an entry
+			// for a file that is gone can never be collected and keeps the total up for good)
+			for root, cnt := range s.GC {
+				run.Stat("cache_entries_checked_for_a_stored_root", 1)
+				if !s.Present[root] && !ghostReported[root] {
+					ghostReported[root] = true
+					c.Viol("cache-entry-for-a-file-that-is-gone/after-"+after, fmt.Sprintf("after %s: the cache index records %d chunks for file %s whose root chunk is not stored", after, cnt, root[:12]), witness(nil))
+				}
+			}
 			if delta != lastDelta {
 				c.Viol("counter-diverges-from-total-after-"+after,
 					fmt.Sprintf("after %s: persisted counter %d, recomputed total %d (difference %d, was %d before)", after, s.GCSize, s.SumGC, delta, lastDelta), witness(nil))
@@ -264,9 +275,52 @@ func histories(t *testing.T, shard int) {
 					continue
 				}
 				kind := []string{"read", "cachepart", "pin", "unpin", "delete", "cache"}[rng.Intn(6)]
+				// one time in three the run is parked later: at the moment its first candidate (the
+				// oldest cache entry) is handed to chunkinfo, and the operation hits that very file
+				atDelFile := rng.Intn(3) == 0
+				if atDelFile {
+					if raw, err := w.N.Store.VerifDump(); err == nil && len(raw.GC) > 0 {
+						for gi, h := range files {
+							if fmt.Sprintf("%x", raw.GC[0].Address) == h.Root.String() {
+								g = gi
+							}
+						}
+					}
+					kind = []string{"read", "read", "cachepart", "cache"}[rng.Intn(4)]
+				}
 				hist = append(hist, opRec{Op: "collect-parked", File: g, Arg: kind})
+				if atDelFile {
+					hist[len(hist)-1].Op = "collect-parked-at-delfile"
+				}
 				s0, _ := fsim.Dump(w.N)
-				parked := parkedCollect(t, w.N, func() { doOp(kind, g) })
+				var parked bool
+				var mid *fsim.State
+				during := func() {
+					doOp(kind, g)
+					mid, _ = fsim.Dump(w.N)
+				}
+				if atDelFile {
+					parked = fsim.ParkedCollect(w.N, "delfile", during, func(m string) { t.Fatal(m + " (inconclusive)") })
+					if parked {
+						run.Stat("parked_collections_at_delfile", 1)
+					}
+				} else {
+					parked = parkedCollect(t, w.N, during)
+				}
+				if parked && mid != nil && fsim.LastParkedErr == nil {
+					// the run takes what it reports as collected off the counter AS IT IS when the run
+					// writes it: counter changes acknowledged while the run was parked are not lost
+					s1, _ := fsim.Dump(w.N)
+					want := int64(mid.GCSize) - int64(fsim.LastParkedCollected)
+					if want < 0 {
+						want = 0
+					}
+					run.Stat("counter_conservation_checked_over_parked_runs", 1)
+					if int64(s1.GCSize) != want {
+						c.Viol("counter-after-parked-run-is-not-counter-at-that-time-minus-collected/"+kind,
+							fmt.Sprintf("the counter was %d when the run started, %d after the %s made while the run was parked; the run reports %d collected and leaves the counter at %d (expected %d)", s0.GCSize, mid.GCSize, kind, fsim.LastParkedCollected, s1.GCSize, want), witness(nil))
+					}
+				}
 				collections++
 				if parked {
 					parkedKinds[kind] = true
